@@ -638,6 +638,12 @@ def rule_O1(ctx) -> None:
             if w.attr == "<field>":
                 if key in OTHER_RAW:
                     continue
+                # a helper of a listed function (called by nothing else in the module) writes on its behalf
+                callers_ = {q for q, fn_ in mod.functions() if q != w.func and any(
+                    isinstance(c_, ast.Call) and ((isinstance(c_.func, ast.Name) and c_.func.id == w.func) or (isinstance(c_.func, ast.Attribute) and c_.func.attr == w.func.rsplit(".", 1)[-1]))
+                    for c_ in ast.walk(fn_))}
+                if callers_ and all((w.module, q) in OTHER_RAW for q in callers_):
+                    continue
                 eff = _effective_writers(mod, w.func) if w.module == M_INIT else None
                 if w.module == M_INIT and eff and eff <= ALLOWED_WRITERS["<field>"]:
                     n["<field>"] += 1
